@@ -18,7 +18,9 @@ RULE = ("complete enumeration of call shapes: {@symbolic_function plain function
         "Predicate subclass} x arity 1..3 x number of trailing defaults x per parameter {variable positional, variable "
         "keyword, concrete positional, concrete keyword, omitted} (positional before keyword), each evaluated over "
         "random 2-3 element domains, then evaluated a second time after the bound objects changed, and once more as the "
-        "second condition of a query that binds a further variable, once directly under not_ and once as the condition of for_all; random repetitions with other worlds in the thorough tier.  Non-trivial = the call "
+        "second condition of a query that binds a further variable, once directly under not_ and once as the condition of for_all; "
+        "five further signature families (*args, positional-only, keyword-only, **kwargs and all of them mixed) as function and as method, "
+        "each with 5-8 call shapes, where the oracle is the concrete call for every candidate binding; random repetitions with other worlds in the thorough tier.  Non-trivial = the call "
         "has at least one variable argument; distinct = the call shape")
 ASSUMPTIONS = ["all generated functions / methods / predicate classes share one qualified name per kind (re-definitions "
                "with other signatures), so state keyed by name instead of by object is exposed",
@@ -36,7 +38,7 @@ def plan(tier):
             "min_nontrivial": 100,
             "min_counters": {"body_calls_checked": 2000, "concrete_calls": 100, "symbolic_constructions": 300,
                              "reevaluations_with_changed_truth": 100, "bystander_queries": 300,
-                             "negated_queries_with_answers": 100}}
+                             "negated_queries_with_answers": 100, "signature_family_calls": 100}}
 
 
 LOG = []
@@ -95,6 +97,93 @@ class ProbePred(Predicate):
             made[("method", arity, nd)] = ns["Host"]()
             made[("pred", arity, nd)] = ns["ProbePred"]
     ctx["made"] = made
+    exec(SIG_SRC, ns)
+    ctx["sig"] = {name: ns["sig_" + name] for name in SIGS}
+    ctx["sig_host"] = ns["SigHost"]()
+
+
+SIG_SRC = """
+def _flat(*parts):
+    out = []
+    for part in parts:
+        if isinstance(part, tuple):
+            out.extend(part)
+        elif isinstance(part, dict):
+            out.extend(v for _, v in sorted(part.items()))
+        else:
+            out.append(part)
+    return tuple(out)
+
+@symbolic_function
+def sig_star(p0, *rest):
+    LOG.append(('star', p0, rest))
+    return _truth(_flat(p0, rest))
+
+@symbolic_function
+def sig_posonly(p0, /, p1=D[1]):
+    LOG.append(('posonly', p0, p1))
+    return _truth(_flat(p0, p1))
+
+@symbolic_function
+def sig_kwonly(p0, *, p1=D[1]):
+    LOG.append(('kwonly', p0, p1))
+    return _truth(_flat(p0, p1))
+
+@symbolic_function
+def sig_kwargs(p0, **extra):
+    LOG.append(('kwargs', p0, tuple(sorted(extra.items()))))
+    return _truth(_flat(p0, extra))
+
+@symbolic_function
+def sig_mixed(p0, /, p1, *rest, k0=D[0], **extra):
+    LOG.append(('mixed', p0, p1, rest, k0, tuple(sorted(extra.items()))))
+    return _truth(_flat(p0, p1, rest, k0, extra))
+
+class SigHost:
+    @symbolic_function
+    def sig_star(self, p0, *rest):
+        LOG.append(('mstar', p0, rest))
+        return _truth(_flat(p0, rest))
+
+    @symbolic_function
+    def sig_posonly(self, p0, /, p1=D[1]):
+        LOG.append(('mposonly', p0, p1))
+        return _truth(_flat(p0, p1))
+
+    @symbolic_function
+    def sig_kwonly(self, p0, *, p1=D[1]):
+        LOG.append(('mkwonly', p0, p1))
+        return _truth(_flat(p0, p1))
+
+    @symbolic_function
+    def sig_kwargs(self, p0, **extra):
+        LOG.append(('mkwargs', p0, tuple(sorted(extra.items()))))
+        return _truth(_flat(p0, extra))
+
+    @symbolic_function
+    def sig_mixed(self, p0, /, p1, *rest, k0=D[0], **extra):
+        LOG.append(('mmixed', p0, p1, rest, k0, tuple(sorted(extra.items()))))
+        return _truth(_flat(p0, p1, rest, k0, extra))
+"""
+
+# signature family -> call shapes (positional arguments, keyword arguments); "v" = a variable, "c" = a plain object
+SIGS = {
+    "star": [(["v"], {}), (["v", "c"], {}), (["c", "v"], {}), (["v", "v"], {}), (["c", "c", "v"], {}), (["v", "c", "c"], {}),
+             (["v", "v", "v"], {})],
+    "posonly": [(["v"], {}), (["v", "c"], {}), (["c", "v"], {}), (["v"], {"p1": "c"}), (["c"], {"p1": "v"}), (["v"], {"p1": "v"})],
+    "kwonly": [(["v"], {}), (["v"], {"p1": "c"}), (["c"], {"p1": "v"}), ([], {"p0": "v", "p1": "c"}), ([], {"p1": "v", "p0": "c"}),
+               (["v"], {"p1": "v"})],
+    "kwargs": [(["v"], {}), (["v"], {"k1": "c"}), (["c"], {"k1": "v"}), (["v"], {"k1": "v", "k2": "c"}), ([], {"k2": "v", "p0": "c"})],
+    "mixed": [(["v", "c"], {}), (["c", "v"], {}), (["v", "c", "c"], {}), (["c", "c", "v"], {"k0": "c"}), (["v", "c", "c", "v"], {"zz": "c"}),
+              (["c"], {"p1": "v"}), (["v"], {"p1": "c", "k0": "v"}), (["c", "c"], {"zz": "v"})],
+}
+
+
+def sig_shapes():
+    for name, calls in SIGS.items():
+        for method in (False, True):
+            for n, (pos, kw) in enumerate(calls):
+                yield {"sig": name, "method": method, "pos": list(pos), "kw": dict(kw), "n": n}
 
 
 def shapes():
@@ -123,6 +212,10 @@ def exhaustive(tier, ctx):
         s = dict(s)
         s["wseed"] = i
         yield s
+    # signatures beyond plain positional-or-keyword parameters
+    for j, s in enumerate(sig_shapes()):
+        for rep in range(2 if tier == "quick" else 6):
+            yield dict(s, wseed=1000 * rep + j)
     # call shapes that the concrete call rejects: the symbolic call has to reject them as well
     for kind in ("fn", "method"):
         for arity in (1, 2, 3):
@@ -132,7 +225,8 @@ def exhaustive(tier, ctx):
 
 def gen(rng, tier, ctx):
     all_shapes = ctx.setdefault("_shapes", list(shapes()))
-    s = dict(rng.choice(all_shapes))
+    sigs = ctx.setdefault("_sig_shapes", list(sig_shapes()))
+    s = dict(rng.choice(sigs if rng.random() < 0.3 else all_shapes))
     s["wseed"] = rng.randrange(10 ** 9)
     return s
 
@@ -141,6 +235,8 @@ def witnesses():
     return {
         "positional-args-shifted": {"kind": "fn", "arity": 2, "nd": 0, "args": ["vp", "cp"], "wseed": 1},
         "positional-args-shifted-method": {"kind": "method", "arity": 1, "nd": 0, "args": ["vp"], "wseed": 2},
+        "variadic-and-positional-only-parameters": {"sig": "mixed", "method": False, "pos": ["v", "c", "c", "v"], "kw": {"zz": "c"}, "n": 4, "wseed": 3},
+        "variadic-and-positional-only-parameters-method": {"sig": "posonly", "method": True, "pos": ["c"], "kw": {"p1": "v"}, "n": 4, "wseed": 4},
     }
 
 
@@ -180,6 +276,98 @@ def run_invalid(spec, ctx):
             "detail": f"{spec}: the concrete call raises {concrete_error!r}, the symbolic call was accepted and returned {type(res).__name__}"}
 
 
+def run_sig(spec, ctx):
+    """*args, positional-only, keyword-only and **kwargs parameters: the oracle is the concrete call itself (what it logs
+    and returns for the values of a candidate binding)"""
+    import random
+    from krrood.entity_query_language.entity import let, set_of, not_
+    from krrood.entity_query_language.quantify_entity import an
+    from krrood.entity_query_language.symbolic import SymbolicExpression
+    m = ctx["m"]
+    C = ctx["counters"]
+    rng = random.Random(spec["wseed"])
+    call = getattr(ctx["sig_host"], "sig_" + spec["sig"]) if spec["method"] else ctx["sig"][spec["sig"]]
+    shape = f"sig/{spec['sig']}/{'method' if spec['method'] else 'fn'}/{','.join(spec['pos'])}/" + \
+            ",".join(f"{k}={v}" for k, v in spec["kw"].items())
+    slots = [("pos", i, k) for i, k in enumerate(spec["pos"])] + [("kw", name, k) for name, k in spec["kw"].items()]
+    doms, variables, consts = {}, {}, {}
+    for where, at, k in slots:
+        if k == "v":
+            doms[(where, at)] = [m.P(a=rng.randint(0, 3), name=f"v{at}_{j}") for j in range(rng.randint(2, 3))]
+            variables[(where, at)] = let(m.P, list(doms[(where, at)]), name=f"x{at}")
+        else:
+            consts[(where, at)] = m.P(a=rng.randint(0, 3), name=f"c{at}")
+    var_slots = [(w, a) for w, a, k in slots if k == "v"]
+
+    def arguments(binding, symbolic):
+        pos = [(variables if symbolic else binding)[("pos", i)] if k == "v" else consts[("pos", i)] for i, k in enumerate(spec["pos"])]
+        kw = {name: (variables if symbolic else binding)[("kw", name)] if k == "v" else consts[("kw", name)]
+              for name, k in spec["kw"].items()}
+        return pos, kw
+
+    def ident(entry):
+        def walk(v):
+            if isinstance(v, tuple):
+                return tuple(walk(i) for i in v)
+            return v if isinstance(v, str) else id(v)
+        return walk(entry)
+
+    # the oracle: the concrete call for every candidate binding
+    bindings = [dict(zip(var_slots, combo)) for combo in itertools.product(*[doms[s] for s in var_slots])]
+    want_calls, want_true = [], []
+    for b in bindings:
+        LOG.clear()
+        pos, kw = arguments(b, False)
+        value = call(*pos, **kw)
+        if isinstance(value, SymbolicExpression) or len(LOG) != 1:
+            return {"status": "fail", "kind": "concrete-call", "key": None,
+                    "detail": f"{shape}: the concrete call returned {type(value).__name__} and logged {len(LOG)} body runs"}
+        C["concrete_calls"] += 1
+        want_calls.append(ident(LOG[0]))
+        if value:
+            want_true.append(tuple(id(b[s]) for s in var_slots))
+    LOG.clear()
+    C["signature_family_calls"] += 1
+    problems = []
+    pos, kw = arguments(None, True)
+    try:
+        res = call(*pos, **kw)
+    except Exception as e:
+        return {"status": "fail", "kind": "construction-exception:" + type(e).__name__, "key": None,
+                "detail": f"{shape}: {type(e).__name__}: {e}"[:300]}
+    C["symbolic_constructions"] += 1
+    if LOG:
+        problems.append(f"body ran {len(LOG)}x at construction time with {LOG[0]!r}")
+    if not isinstance(res, SymbolicExpression):
+        problems.append(f"call with a variable returned {type(res).__name__} {res!r}, not a condition")
+    if problems:
+        return {"status": "fail", "kind": "eager-or-non-condition", "key": None, "detail": shape + ": " + "; ".join(problems)}
+    sel = [variables[s] for s in var_slots]
+    for negated in (False, True):
+        LOG.clear()
+        try:
+            cond = call(*pos, **kw)
+            rows = [tuple(id(r[v]) for v in sel) for r in an(set_of(sel, not_(cond) if negated else cond)).evaluate()]
+        except Exception as e:
+            return {"status": "fail", "kind": "evaluation-exception:" + type(e).__name__, "key": None,
+                    "detail": f"{shape}{' under not_' if negated else ''}: {type(e).__name__}: {e}"[:300]}
+        C["body_calls_checked"] += len(LOG)
+        if sorted(map(ident, LOG)) != sorted(want_calls):
+            problems.append(f"{'under not_: ' if negated else ''}the body runs of the evaluation differ from the concrete calls of the "
+                            f"candidate bindings: {len(LOG)} vs {len(want_calls)}; first {LOG[0] if LOG else None!r}")
+        want_rows = sorted(set(tuple(id(b[s]) for s in var_slots) for b in bindings) - set(want_true)) if negated else sorted(want_true)
+        if sorted(rows) != want_rows:
+            problems.append(f"{'under not_: ' if negated else ''}rows {len(rows)} != {len(want_rows)} bindings for which the concrete "
+                            f"call is {'false' if negated else 'true'}")
+        if negated:
+            C["negated_queries"] += 1
+            if want_rows:
+                C["negated_queries_with_answers"] += 1
+    if problems:
+        return {"status": "fail", "kind": "symbolic-evaluation", "key": None, "detail": shape + ": " + "; ".join(problems)}
+    return {"status": "ok", "nontrivial": True, "shape": shape, "obs": {"calls": len(want_calls), "rows": len(want_true)}}
+
+
 def run(spec, ctx):
     import random
     from krrood.entity_query_language.entity import let, set_of, entity, and_, not_, for_all
@@ -189,6 +377,8 @@ def run(spec, ctx):
     C = ctx["counters"]
     if spec.get("invalid"):
         return run_invalid(spec, ctx)
+    if spec.get("sig"):
+        return run_sig(spec, ctx)
     rng = random.Random(spec["wseed"])
     kind, arity, nd, args = spec["kind"], spec["arity"], spec["nd"], spec["args"]
     target = ctx["made"][(kind, arity, nd)]
